@@ -321,6 +321,7 @@ class C17(PropBase):
         "documented abstract-to-builtin map; special-form predicates equal typing.get_origin/get_args-based models. Non-trivial: a "
         "twin spelling of the object was evaluated by the same predicate earlier in the run, or a cache clear fired before; distinct = "
         "distinct (predicate, object, pre-state) triples."
+        ' Under the swept exhaustion fault each pair of a slice is first asked from every stack depth at which the call cannot complete.'
     )
     ASSUMPTIONS = ["issequencetype / iscollectiontype adopt the documented _COLLECTIONS quirk; predicates without a pinned meaning "
                    "(isstructuredtype, isbuiltin*/isstdlib*, isgeneric, name/qualname, signature helpers) are checked for totality, stability and "
